@@ -82,7 +82,12 @@ CHECKS["C27"] = _c("structural analysis of the schema embedding path (key-domain
 CHECKS["C26"] = _c("expansion of all 31 gogen templates into one complete package (both union styles) type-checked with go/types against the loaded ygot/ytypes/goyang; interface-satisfaction checks; type-check of the 54 golden generated Go files; structural rules on writeGoStruct (one field per IR field, Go type per node kind, uniquified names, consistent ordered/unordered decision) and createFakeRoot",
     "Decides that the code the templates expand to compiles and implements the ygot interfaces, that the golden generated files type-check, that writeGoStruct emits one field per IR field with the type of its node kind from the uniquified name maps with one shared ordered-map decision, and that the fake root receives every root directory, leaf and leaf-list.")
 
+CHECKS["C10"] = _c("write-site guard analysis of retrieveNodeContainer (value written only where the path is exhausted, with the addressed field's schema) + imported flag-gating, key-table, decode-discipline, float→int, wildcard and partial-key rules",
+    "Decides the structural half of set-then-get: the SetNode value is written only at the exhausted path with the field's own schema and parent, every other write of the retrieveNode family is flag-gated creation/deletion, created list entries take their key leaves from the path through parsers that agree with the key renderer for every key kind, payload decoding returns every parse error with no lossy conversion, and multi-entry selection happens only under GetNode's explicit options.")
+CHECKS["C23"] = _c("classification-table guard analysis of DiffSetRequestToNotifications + imported intent normal-form and path-format-owner rules",
+    "Decides that notification leaves are keyed and expanded exactly like intent leaves, that each intent leaf is classified by the (present, reflect.DeepEqual) table with the intent on side A and removed from the leftovers unconditionally, that extras are exactly the leftovers strictly below a deleted/replaced path, and that notifications carrying deletes are refused rather than ignored.")
+
 for _p in []:
     NA[_p] = NOT_YET
-NA["C10"] = "quantifies over runtime trees, paths and payloads; its structural clauses (key and value tables) are decided under C16/C18 and the frame clause has no static handle here (DESIGN.md §7)"
-NA["C23"] = "classification of runtime leaves after single-leaf edits; no clause visible in code shape beyond those claimed under C22 (DESIGN.md §7)"
+# NA["C10"] = "quantifies over runtime trees, paths and payloads; its structural clauses (key and value tables) are decided under C16/C18 and the frame clause has no static handle here (DESIGN.md §7)"
+# NA["C23"] = "classification of runtime leaves after single-leaf edits; no clause visible in code shape beyond those claimed under C22 (DESIGN.md §7)"
